@@ -8,11 +8,11 @@ package dtls
 // sequence numbers per epoch in emission order, (c) seq < 2^48.
 
 import (
-	"strings"
 	"bytes"
 	"context"
 	"errors"
 	"fmt"
+	"strings"
 	"sync"
 	"sync/atomic"
 	"testing"
